@@ -26,3 +26,7 @@ func verifYield(string) {}
 func verifPoolGet(*bytes.Buffer) {}
 
 func verifPoolPut(*bytes.Buffer) {}
+
+func verifCodecGet(any) {}
+
+func verifCodecPut(any) {}
